@@ -34,7 +34,7 @@ RULE = ('ENCP: UnicodeToLatexEncoder(conversion_rules=[table]) x strict parse of
 TRUSTED = ['unicodedata.normalize("NFC") (the model receives the normalised string)',
            'str.isalpha on replacement texts = ASCII letters (replacement texts are ASCII: theorem C13_table_ascii)',
            'translate/uni2latex.py copies the two tables into Lean; every ENCP comparison re-validates the copied entries it touches']
-ASSUMPTIONS = ['no lone surrogates', 'non_ascii_only=False (with True the ASCII characters are copied and nothing is neutralised)',
+ASSUMPTIONS = ['no lone surrogates', 'inertness and strict parse are claimed for non_ascii_only=False (with True the ASCII characters are copied and nothing is neutralised); the ASCII-only and fail-iff clauses are checked under both settings',
                'strict parsing uses the default latex context database',
                'scheme none: strict parsing is demanded only when no control word fuses with a following letter']
 TRIVIAL_SIGS = ('ok:P:C', 'ok:P:')
@@ -70,13 +70,15 @@ def builtin_table(name):
     return _TABLES[name]
 
 _ENC = {}
-def get_encoder(table, prot, pol, warn=False):
+def get_encoder(table, prot, pol, warn=False, nao=False):
     """warn=True: the warning flag left at its default (the warning is logged to a NullHandler; building its text is
     part of the call and must not make the call fail)"""
-    key = (table, prot, pol, warn)
+    key = (table, prot, pol, warn, nao)
     if key not in _ENC:
         from pylatexenc import latexencode as le
         kw = dict(conversion_rules=[table], latex_string_class=ChunkList)
+        if nao:
+            kw['non_ascii_only'] = True
         if not warn:
             kw['unknown_char_warning'] = False
         if prot != 'default':
@@ -192,8 +194,15 @@ def run_impl(c):
     table = builtin_table(c['table'])
     eprot = 'braces' if c['prot'] == 'default' else c['prot']
     epol = 'keep' if c['pol'] == 'default' else c['pol']
-    unmatched = [ch for ch in sn if ord(ch) not in table and not passes_through(ch)]
-    enc = get_encoder(c['table'], c['prot'], c['pol'], warn=(sum(map(ord, c['s'])) % 2 == 1))
+    nao = bool(c.get('nao'))
+    if nao:
+        # non_ascii_only=True: every ASCII character (also control characters) is copied; the rules and the policy
+        # apply to the non-ASCII characters only.  The claims that remain: ASCII-only output, 'fail' raises exactly
+        # for a non-ASCII character without rule (nothing is neutralised, so inertness / parse are not claimed)
+        unmatched = [ch for ch in sn if ord(ch) >= 128 and ord(ch) not in table]
+    else:
+        unmatched = [ch for ch in sn if ord(ch) not in table and not passes_through(ch)]
+    enc = get_encoder(c['table'], c['prot'], c['pol'], warn=(sum(map(ord, c['s'])) % 2 == 1), nao=nao)
     try:
         res = enc.unicode_to_latex(s); exc = None
     except Exception as e:          # every exception class is an observable here
@@ -229,6 +238,8 @@ def run_impl(c):
     if fail is None and epol in ('replace', 'ignore', 'unihex') and not text.isascii():
         bad = [ch for ch in text if ord(ch) > 127]
         fail = {'kind': 'non-ascii-output', 'detail': 'policy %s, output contains %r' % (epol, bad[:5])}
+    if nao:
+        return {'out': out, 'fail': fail, 'sig': 'nao:' + ('P' if kind == 'ok' else 'E')}
     if fail is None:
         d = inert_defect(text)
         if d is not None:
@@ -266,7 +277,7 @@ def to_line(c):
         return None
     eprot = 'braces' if c['prot'] == 'default' else c['prot']
     epol = 'keep' if c['pol'] == 'default' else c['pol']
-    return '\t'.join(['ENCP', c['table'], eprot, epol, 'F', wire(NFC(c['s']))])
+    return '\t'.join(['ENCP', c['table'], eprot, epol, 'T' if c.get('nao') else 'F', wire(NFC(c['s']))])
 
 # ------------------------------------------------------------------ generators
 
@@ -303,6 +314,14 @@ def cases(tier, rng):
                 yield encp(s, tb, pr, 'default')
             for q in POLS:
                 yield encp(s, tb, 'default', q)
+    # 0b. non_ascii_only=True: ASCII-only output and the fail-iff clause (non-ASCII blanks, controls, unnamed code points)
+    NB = ['\xa0', '\x85', '\u1680', '\u2003', '\u2028', '\u2029', '\u202f', '\u205f', '\u3000', '\x00', '\x7f', '\x80', '\ue000', '\u4e7e', '\xe9', 'a', ' ', '%', '\n']
+    for _ in range(900 if quick else 15000):
+        s = ''.join(rng.choice(NB) if rng.random() < 0.6 else rng.choice(ODD) for _ in range(rng.randint(1, 6)))
+        t_, p_, q_ = rng.choice(COMBOS)
+        c = encp(s, t_, p_, rng.choice(['replace', 'ignore', 'unihex', 'fail', q_]))
+        c['nao'] = True
+        yield c
     # 1. every ordering of the active characters with a letter, space, newline
     maxlen = 4 if quick else 5
     k = rng.randrange(len(COMBOS))
